@@ -8,7 +8,7 @@ use crate::report::{par_run, Report};
 use crate::rng::Rng;
 use serde_json::json;
 
-pub const RULE: &str = "All 22 indicators x periods {1,2,7,64,512} (+ sampled 1..=512) x stream shapes {strictly increasing, strictly decreasing, alternating, flat, random walk, uniform random} x scalar/bar feed: after a warm-up of n+2 inputs the thread-local live-heap counter of the harness's counting GlobalAlloc is read, N further inputs (10^5 quick, 10^6 thorough) generated in place (no harness allocation in between) are fed, and it is read again: growth must be <= 256 + 64*sum(periods) bytes (allocation count in steady state reported). bincode::serialized_size is sampled at every step of the first 3n+10 inputs and at 64 checkpoints of the long run: always <= the same bound (constancy after the first input reported). Non-trivial: every run (stream far longer than the window); distinct by construction (indicator, period, shape, feed).";
+pub const RULE: &str = "All 22 indicators x periods {1,2,7,64,512} (+ sampled 1..=512) x stream shapes {strictly increasing, strictly decreasing, alternating, flat, random walk, uniform random, one NaN then non-increasing, +-inf then flat} x scalar/bar feed: after a warm-up of n+2 inputs the thread-local live-heap counter of the harness's counting GlobalAlloc is read, N further inputs (10^5 quick, 10^6 thorough) generated in place (no harness allocation in between) are fed, and it is read again: growth must be <= 256 + 64*sum(periods) bytes (allocation count in steady state reported). bincode::serialized_size is sampled at every step of the first 3n+10 inputs and at 64 checkpoints of the long run: always <= the same bound (constancy after the first input reported). Non-trivial: every run (stream far longer than the window); distinct by construction (indicator, period, shape, feed).";
 
 #[derive(Clone, Copy, Debug, PartialEq)]
 pub enum Shape {
@@ -18,8 +18,12 @@ pub enum Shape {
     Flat,
     Walk,
     Uniform,
+    /// one NaN among the first inputs, then a non-increasing stream
+    NanThenDecreasing,
+    /// one +inf and one -inf among the first inputs, then flat
+    InfThenFlat,
 }
-pub const SHAPES: [Shape; 6] = [Shape::Increasing, Shape::Decreasing, Shape::Alternating, Shape::Flat, Shape::Walk, Shape::Uniform];
+pub const SHAPES: [Shape; 8] = [Shape::Increasing, Shape::Decreasing, Shape::Alternating, Shape::Flat, Shape::Walk, Shape::Uniform, Shape::NanThenDecreasing, Shape::InfThenFlat];
 
 pub struct ShapeGen {
     shape: Shape,
@@ -45,6 +49,20 @@ impl ShapeGen {
                 }
             }
             Shape::Flat => 42.5,
+            Shape::NanThenDecreasing => {
+                if self.i == 3 {
+                    f64::NAN
+                } else if self.i % 3 == 0 {
+                    1e9 - (self.i - 1) as f64 * 0.25 // repeats the previous value: non-increasing
+                } else {
+                    1e9 - self.i as f64 * 0.25
+                }
+            }
+            Shape::InfThenFlat => match self.i {
+                2 => f64::INFINITY,
+                4 => f64::NEG_INFINITY,
+                _ => 42.5,
+            },
             Shape::Walk | Shape::Uniform => self.band.next(),
         }
     }
@@ -202,7 +220,7 @@ pub fn run(ctx: &Ctx) -> Report {
     });
     rep.notes.push(format!("inputs per long run: {}", steps));
     if ctx.only.is_none() {
-        for key in ["runs", "shape.Increasing", "shape.Decreasing", "shape.Alternating", "shape.Flat", "shape.Walk", "shape.Uniform"] {
+        for key in ["runs", "shape.Increasing", "shape.Decreasing", "shape.Alternating", "shape.Flat", "shape.Walk", "shape.Uniform", "shape.NanThenDecreasing", "shape.InfThenFlat"] {
             if rep.counters.get(key).copied().unwrap_or(0) == 0 {
                 rep.inconclusive.push(format!("coverage floor missed: {} = 0", key));
             }
